@@ -47,31 +47,43 @@ def check(ctx):
         ctx.fail("C15.anchor", "once:anchor-lost:outer-closure", once.loc(withc[0][0]), "stored closure not found")
         return
     ctx.touch(outer)
-    # the captured Option<inner closure>
+    # the captured Option<inner closure> (pinned shape); the body that runs the user's reactor is the inner closure when
+    # there is one, else the stored closure itself (a one-off reactor may be written with any run-once guard)
     inner = None
+    inner_ag = None
     for cap in outer_ag["ops"]:
         ag = clo_of(once, cap)
         if ag:
             inner = prog.body(ag["closure"])
             inner_ag = ag
-    if inner is None:
-        ctx.fail("C15.anchor", "once:anchor-lost:inner-closure", once.loc(withc[0][0]), "captured Option<closure> not found")
+    has_run = lambda bd: any(fr and lib.tail(mir.fn_name(fr), 1) == "run_with_cleanup" for _, _, fr in bd.iter_calls())
+    if inner is not None and has_run(inner):
+        ctx.touch(inner, calls=len(list(inner.iter_calls())))
+    elif has_run(outer):
+        inner = None
+    else:
+        ctx.fail("C15.anchor", "once:anchor-lost:reactor-run", once.loc(withc[0][0]), "no closure built by once() runs the reactor")
         return
-    ctx.touch(inner, calls=len(list(inner.iter_calls())))
     # ---- C15.a at most once ----
     takes = [b for b, t, fr in outer.iter_calls() if fr and lib.tail(mir.fn_name(fr), 2) == "Option::take"
              and all(o[0] == "arg" and o[1] == 1 for o in origins(outer, t["args"][0]))]
-    calls = [b for b, t, fr in outer.iter_calls() if fr and mir.fn_name(fr) == inner.path]
+    if inner is not None:
+        calls = [b for b, t, fr in outer.iter_calls() if fr and mir.fn_name(fr) == inner.path]
+    else:
+        calls = [b for b, t, fr in outer.iter_calls() if fr and lib.tail(mir.fn_name(fr), 1) == "run_with_cleanup"]
     ok = len(takes) == 1 and bool(calls)
     if ok:
         arms = lib.result_arms(outer, takes[0])
-        ok = bool(arms) and all(outer.dominates(arms[0][1], c) for c in calls) and \
-            all(lib.originates_from_call(outer, outer.blocks[c]["term"]["args"][0], takes[0]) for c in calls)
+        ok = bool(arms) and all(outer.dominates(arms[0][1], c) for c in calls)
+        if inner is not None:
+            ok = ok and all(lib.originates_from_call(outer, outer.blocks[c]["term"]["args"][0], takes[0]) for c in calls)
         cnt, _, _ = lib.event_counts(outer, calls)
         ok = ok and cnt <= {0, 1}
     ctx.check(ok, "C15.a", "once::outer:runs-taken-closure-at-most-once", "%s:%d" % (outer.file, outer.line),
-              "inner closure is obtained with Option::take and called only on the Some arm, at most once per path",
-              "the one-off reactor can run more than once (the inner closure is not consumed through Option::take)")
+              "the reactor run is reached only through the Some arm of an Option::take on captured state, at most once per path",
+              "the one-off reactor can run more than once: the stored callback does not consume a captured Option (Option::take) before running the reactor")
+    if inner is None:
+        inner, inner_ag = outer, outer_ag
     # no other way to run the reactor: the reactor value is captured only by the inner closure
     # ---- C15.b vanish ----
     runs = [b for b, t, fr in inner.iter_calls() if fr and lib.tail(mir.fn_name(fr), 1) == "run_with_cleanup"]
@@ -206,3 +218,9 @@ def _locality(ctx):
     import c06
     n = core.adopt(ctx, c06, lambda o: o["rule"] in ("C06.b", "C06.f"), "C15.d")
     ctx.floor("C15.d", n, 25, "shared revoke-locality obligations (C06.b/f)")
+    # the self-revoke (issued after the reactor despawned its own entity) and a user revoke before any trigger fires
+    # must take effect: the revocation is scheduled on every path and the token lists every bundle member
+    n = core.adopt(ctx, c06, lambda o: (o["rule"] == "C06.c" and ("revocation-scheduled-on-every-path" in o["key"] or "schedules-own-token" in o["key"]
+                                                              or "visits-every-token-entry" in o["key"]))
+                   or (o["rule"] == "C06.e" and ("one-entry-per-bundle-member" in o["key"] or "token-lists-every-bundle-member" in o["key"])), "C15.e")
+    ctx.floor("C15.e", n, 4, "shared revocation-effectiveness obligations (C06.c/e)")
